@@ -16,6 +16,27 @@ CLAIMS = {
        "result, error kind and all four getters compared after every call). A theorem is the right level because the property is a pure state-machine invariant over all call sequences.",
   note="Trusted: Lean kernel; axioms propext/Classical.choice/Quot.sound only; gen_constants.py; the harness+driver correspondence (differential testing, so the tie is as strong as its generator: distribution in evidence); u64 modelled as Nat (C06.no_overflow covers devices <= MAX_DEVICE_SIZE); BTreeMap assumed to be an ordered map.",
   design="6/C06"),
+ "C01": dict(engine="kv", design="6/C01",
+  technique="Lean 4 theorems about an executable last-writer-wins reference map (Feox.Kv.Spec) + call-by-call differential check of the real FeoxStore against it in all 24 configurations and storage tiers",
+  text="Feox.Kv.Spec is the reference map of the property (LWW by timestamp, lingering expired entries as the code keeps them, saturating arithmetic, the version clock, validation order). Proved for all states and arguments: a write takes effect iff its timestamp is greater than the key's current one and a rejected one changes nothing (write_iff_newer), reads return the latest accepted value (reads_latest), an accepted delete removes the key (delete_effect), and every call that returns an error leaves entries, usage and count untouched so later reads are unchanged (error_preserves_contents / error_preserves_view; only a lazy expiry inside increment is exempt), with doInsert_cases enumerating every outcome. "
+       "The tie: the kv engine drives every public method of the real store single-threaded (insert/insert_bytes/TTL variants, get/get_bytes, delete, CAS, increment, insert_if_absent, JSON patch, TTL calls, range, flush, sweeper batch, clean reopen) in {memory-only, persistent} x {cache on/off} x {TTL on/off} x {v1,v2,v3}, and after every call compares result, len() and memory_usage() with the reference; values are read resident, from cache and from disk (tier histogram in evidence). Differences are delta-debugged to a minimal call sequence.",
+  note='Trusted: Lean kernel; axioms propext/Classical.choice/Quot.sound; gen_constants.py; the kv harness + driver correspondence (differential, call by call incl. len()/memory_usage()); json-patch, wall clock and key->shard hash enter the model as recorded inputs; concurrency is outside this engine.' + " Partial: tier/cache independence is established by the differential runs (same reference for every tier), not by a refinement theorem about a tiered model; values above 2 blocks and the 1024-entry buffer trigger are not generated in the quick tier."),
+ "C11": dict(engine="kv", design="6/C11",
+  technique="Lean 4 theorems about expiry in the reference map with the wall clock as explicit input + differential check with a pinned clock (boundary times, sweeper batches, restart)",
+  text="Proved on Feox.Kv.Spec for all states/times: once now > expiry no value-reading call returns the value (get_never_after, range_never_after, cas_never_after, patch_never_after, update_ttl_never_after; incr_reinitialises), an unexpired or expiry-less entry is returned and is removed neither by a sweep nor by a reopen (get_never_before, sweep_never_before, survives_restart: value, timestamp and absolute expiry unchanged), expired entries are dropped by a TTL-enabled reopen (restart_drops_expired), the saturating expiry arithmetic (expiry_arith) and that a TTL-only update keeps the value with a strictly newer version (ttl_only_update_keeps_value). Tie: kv engine with the clock hook pinning `now` per call (ns..minutes steps across expiries), explicit sweeper batches through the hook, TTL-only updates of offloaded values, reopen with TTL on/off; image-level no-resurrection is exercised by the fmt engine.",
+  note='Trusted: Lean kernel; axioms propext/Classical.choice/Quot.sound; gen_constants.py; the kv harness + driver correspondence (differential, call by call incl. len()/memory_usage()); json-patch, wall clock and key->shard hash enter the model as recorded inputs; concurrency is outside this engine.' + " Partial: sweeper/writer races are outside this engine; the no-resurrection clause for crash images rests on the fmt correspondence (recoverImage), not on a Lean theorem yet."),
+ "C12": dict(engine="kv", design="6/C12",
+  technique="Lean 4 theorems about the sharded version clock of the reference map + differential check (mixes of automatic and explicit timestamps, restart), known findings F1/F2 listed",
+  text="Proved: clockNext is strictly above the shard clock below the maximum and never moves a clock back (next_strict), observe folds an accepted explicit timestamp in (observe_ge, accepted_explicit_insert_observed), with the clock invariant and headroom an automatically timestamped insert/delete/CAS is never rejected as older (auto_*_never_older) and a TTL change always outranks its predecessor (update_ttl_strict), an explicit timestamp carried by a failing insert/delete is never absorbed (failed_explicit_*_not_absorbed: the whole state is unchanged), and a reopen re-establishes 'every recovered timestamp <= its key's new shard clock' under the new handle's shard map (reopen_clock_dominates). Tie: kv engine compares every answer and the shard clock values (through the hook) across auto/past/equal/+1/future explicit timestamps on all operation kinds, flush and reopen.",
+  note='Trusted: Lean kernel; axioms propext/Classical.choice/Quot.sound; gen_constants.py; the kv harness + driver correspondence (differential, call by call incl. len()/memory_usage()); json-patch, wall clock and key->shard hash enter the model as recorded inputs; concurrency is outside this engine.' + " The Headroom hypothesis (shard clock < u64::MAX) is what the statement's 'unless pinned at the maximum' becomes; F1 (u64::MAX-1 exhausts a whole clock shard) and F2 (delete timestamps are not recoverable) are known findings, see DESIGN.md section 8; the generator avoids the terminal timestamps."),
+ "C13": dict(engine="kv", design="6/C13",
+  technique="Lean 4 invariant proof (induction over arbitrary call sequences) of exact accounting on the reference map + differential check of len()/memory_usage() after every call",
+  text="Acc(s): keys unique, mem = sum over live entries of (overhead + key length + value length), count = number of live entries. Proved: Acc holds initially and is preserved by every operation with any arguments, succeeding or failing (step_exact), hence in every reachable state after any mix of inserts, growing/shrinking updates, deletes, expiries, flushes and reopens (exact); zero when empty; a write refused for memory changes nothing but possibly the clock (insert_refused_changes_nothing and the *_error_frame lemmas); a reservation never pushes usage above the limit (reserve_within_limit). Tie: the kv engine compares memory_usage() and len() with the model after every single call, including configurations with small memory limits (OutOfMemory paths in the error histogram).",
+  note='Trusted: Lean kernel; axioms propext/Classical.choice/Quot.sound; gen_constants.py; the kv harness + driver correspondence (differential, call by call incl. len()/memory_usage()); json-patch, wall clock and key->shard hash enter the model as recorded inputs; concurrency is outside this engine.' + " Partial: the concurrent clause (no interleaving exceeds the limit) is not covered by this engine."),
+ "C14": dict(engine="kv", design="6/C14",
+  technique="Lean 4 proof that the range scan equals filter-then-take on the sorted index (all key sets, bounds, limits, times) + differential check incl. hash/ordered index agreement",
+  text="Proved: rangeScan = take limit (filter (in bounds and not expired) sorted-entries) with current values (range_spec) — so results are strictly ascending in byte order, inside the inclusive bounds, at most limit, the smallest such, skipped expired entries do not consume the limit (range_props), start > end and limit 0 give nothing (range_empty), nothing in range is missing when the limit is large enough (range_complete); byte-lexicographic order is a strict total order (bytesLt_trans/total) and keys stay unique and sorted in every reachable state (reachable_sorted). Tie: kv engine with shared-prefix key sets, empty/0xFF../truncated bounds, limits 0,1,2,3,100,usize::MAX, expired entries inside the window, all tiers; periodic dumps check that the hash index and the ordered index hold the same keys.",
+  note='Trusted: Lean kernel; axioms propext/Classical.choice/Quot.sound; gen_constants.py; the kv harness + driver correspondence (differential, call by call incl. len()/memory_usage()); json-patch, wall clock and key->shard hash enter the model as recorded inputs; concurrency is outside this engine.' + " Partial: the concurrent clauses (stable key seen once, deleted-before never seen) are outside this engine."),
  "C10": dict(
   engine="fmt",
   technique="Lean 4 proofs of codec round trips and layout facts on an independent Lean reader/writer of the documented layout + byte-level differential check of the real store's files and codec functions against it (incl. golden files of the pinned release)",
@@ -72,6 +93,8 @@ def main():
         "engines": [
             {"name": "fsm", "path": "harness/src/bin/fsm.rs + lean/Feox/Fsm", "serves_properties": ["C06"],
              "kind_free_text": "differential correspondence: real FreeSpaceManager vs Lean model through a line protocol"},
+            {"name": "kv", "path": "harness/src/bin/kv.rs + lean/Feox/Kv", "serves_properties": ["C01", "C11", "C12", "C13", "C14"],
+             "kind_free_text": "differential correspondence: every public FeoxStore method, call by call, vs the Lean reference map"},
             {"name": "fmt", "path": "harness/src/bin/fmt.rs + lean/Feox/Fmt", "serves_properties": ["C10", "C17"],
              "kind_free_text": "differential correspondence: codec functions and whole-file open/recovery vs the Lean layout model"},
         ],
